@@ -593,7 +593,10 @@ fn round(
     _: &mut model::Context,
 ) -> error::Result<model::Value> {
     let arg = f64::try_from(args.first().unwrap())?;
-    Ok(model::Value::Number(arg.round()))
+    // XPath 1.0 4.4: a tie goes towards positive infinity (f64::round goes away from zero)
+    let floor = arg.floor();
+    let rounded = if arg - floor >= 0.5 { floor + 1.0 } else { floor };
+    Ok(model::Value::Number(rounded.copysign(arg)))
 }
 
 // -----------------------------------------------------------------------------------------------
